@@ -28,6 +28,12 @@ pub struct Case {
 	/// the client offers TLS 1.2 at most (RFC 8737: "TLS 1.2 or higher") instead of all versions of the local OpenSSL
 	#[serde(default)]
 	pub client_max12: bool,
+	/// every flight of the client is sent this many milliseconds late (a validator far away)
+	#[serde(default)]
+	pub client_delay_ms: u64,
+	/// how the TCP listener is named on the command line: "" = 127.0.0.1 | "[::1]" | "localhost"
+	#[serde(default)]
+	pub tcp_host: String,
 }
 
 pub fn ext_text(digest: &[u8], upper: bool) -> String {
@@ -60,7 +66,12 @@ fn domain() -> impl Strategy<Value = (String, String)> {
 		let n = misc::reverse_dns_name(&b);
 		(n.clone(), n)
 	});
-	prop_oneof![5 => plain, 1 => rev]
+	// names longer than 64 octets (the limit of an X.509 commonName; a dNSName may be 253 octets long, a label 63)
+	let long = (proptest::collection::vec("[a-z][a-z0-9]{20,61}[a-z0-9]", 1..=3), "[a-z]{2,6}").prop_map(|(labels, tld)| {
+		let n = format!("{}.{tld}", labels.join("."));
+		(n.clone(), n)
+	});
+	prop_oneof![5 => plain, 1 => rev, 1 => long]
 }
 
 pub fn strategy() -> impl Strategy<Value = Case> {
@@ -74,9 +85,9 @@ pub fn strategy() -> impl Strategy<Value = Case> {
 		proptest::sample::select(vec!["flag", "file", "stdin"]),
 		proptest::collection::vec(offer(), 2..5),
 		any::<bool>(),
-		any::<bool>(),
+		(any::<bool>(), prop_oneof![5 => Just(0u64), 1 => Just(50u64), 1 => Just(250u64), 1 => Just(1100u64)], prop_oneof![3 => Just(""), 2 => Just("[::1]"), 1 => Just("localhost")]),
 	)
-		.prop_map(|((domain_cfg, domain_expected), digest, key_type, cert_digest, unix, dv, ev, offers, upper_hex, client_max12)| Case {
+		.prop_map(|((domain_cfg, domain_expected), digest, key_type, cert_digest, unix, dv, ev, offers, upper_hex, (client_max12, client_delay_ms, tcp_host))| Case {
 			domain_cfg,
 			domain_expected,
 			digest,
@@ -88,6 +99,8 @@ pub fn strategy() -> impl Strategy<Value = Case> {
 			offers,
 			upper_hex,
 			client_max12,
+			client_delay_ms,
+			tcp_host: tcp_host.to_string(),
 		})
 }
 
@@ -103,6 +116,11 @@ pub fn free_port() -> u16 {
 		}
 	}
 	std::net::TcpListener::bind("127.0.0.1:0").and_then(|l| l.local_addr()).map(|a| a.port()).unwrap_or(5001)
+}
+
+thread_local! {
+	/// host part of the --listen value of TCP listeners started by this thread ("" = 127.0.0.1)
+	pub static TCP_HOST: std::cell::RefCell<String> = const { std::cell::RefCell::new(String::new()) };
 }
 
 /// does process `pid` own a listening TCP socket on `port`? (/proc/net/tcp{,6} + /proc/<pid>/fd)
@@ -165,7 +183,9 @@ fn start_tacd_once(tacd: &Path, dir: &Path, case_domain: &str, ext: &str, domain
 		(format!("unix:{}", p.display()), Target::Unix(p.display().to_string()))
 	} else {
 		port = free_port();
-		(format!("127.0.0.1:{port}"), Target::Tcp(format!("127.0.0.1:{port}")))
+		let host = TCP_HOST.with(|h| h.borrow().clone());
+		let host = if host.is_empty() { "127.0.0.1".to_string() } else { host };
+		(format!("{host}:{port}"), Target::Tcp(format!("{host}:{port}")))
 	};
 	let mut args: Vec<String> = vec!["-f".into(), "--no-pid-file".into(), "--log-stderr".into(), "--listen".into(), listen];
 	let mut stdin_txt = String::new();
@@ -231,7 +251,10 @@ pub fn exec(case: &Case) -> Outcome {
 	};
 	let dir = scratch_dir("c16");
 	let ext = ext_text(&case.digest, case.upper_hex);
-	let mut t = match start_tacd(&tacd, &dir, &case.domain_cfg, &ext, &case.domain_via, &case.ext_via, &case.key_type, &case.cert_digest, case.unix) {
+	TCP_HOST.with(|h| *h.borrow_mut() = case.tcp_host.clone());
+	let started = start_tacd(&tacd, &dir, &case.domain_cfg, &ext, &case.domain_via, &case.ext_via, &case.key_type, &case.cert_digest, case.unix);
+	TCP_HOST.with(|h| h.borrow_mut().clear());
+	let mut t = match started {
 		Ok(t) => t,
 		Err(e) => {
 			return Outcome::fail("C16:tacd-does-not-start", format!("{e}; domain {:?} via {}, extension via {}, key {:?}", case.domain_cfg, case.domain_via, case.ext_via, case.key_type));
@@ -239,14 +262,14 @@ pub fn exec(case: &Case) -> Outcome {
 	};
 	let kt = case.key_type.clone().unwrap_or_else(|| "ecdsa-p256".into());
 	let dg = case.cert_digest.clone().unwrap_or_else(|| "sha256".into());
-	let mut classes = vec![format!("key={kt}"), format!("digest={dg}"), format!("listener={}", if case.unix { "unix" } else { "tcp" }), format!("domain_via={}", case.domain_via), format!("ext_via={}", case.ext_via), format!("client_tls={}", if case.client_max12 { "<=1.2" } else { "all" })];
+	let mut classes = vec![format!("key={kt}"), format!("digest={dg}"), format!("listener={}", if case.unix { "unix" } else { "tcp" }), format!("domain_via={}", case.domain_via), format!("ext_via={}", case.ext_via), format!("client_tls={}", if case.client_max12 { "<=1.2" } else { "all" }), format!("client_delay_ms={}", case.client_delay_ms), format!("tcp_listener={}", if case.unix { "-" } else if case.tcp_host.is_empty() { "127.0.0.1" } else { &case.tcp_host })];
 	let mut refused = 0;
 	let mut accepted = 0;
 	let d = format!("domain {:?} (expected {:?}), offers {:?}", case.domain_cfg, case.domain_expected, case.offers);
 	let mut result = None;
 	for offer in case.offers.iter() {
 		let has_acme = offer.iter().any(|p| p == "acme-tls/1");
-		let r = tlsclient::handshake_v(&t.target, &case.domain_expected, offer, Duration::from_secs(10), case.client_max12);
+		let r = tlsclient::handshake_slow(&t.target, &case.domain_expected, offer, Duration::from_secs(10), case.client_max12, case.client_delay_ms);
 		if t.daemon.state() != ProcState::Alive {
 			result = Some(Outcome::fail("C16:tacd-died", format!("tacd ended ({:?}) after a handshake offering {offer:?}; {d}\n{}", t.daemon.state(), t.daemon.stderr_tail(5))));
 			break;
@@ -286,6 +309,9 @@ pub fn exec(case: &Case) -> Outcome {
 	if case.domain_cfg != case.domain_expected {
 		classes.push("idn-or-mixed-case".into());
 	}
+	if case.domain_expected.len() > 64 {
+		classes.push("name-longer-than-64".into());
+	}
 	if refused > 0 {
 		classes.push("foreign-offer-refused".into());
 	}
@@ -293,7 +319,7 @@ pub fn exec(case: &Case) -> Outcome {
 }
 
 pub fn run(ctx: &Ctx, rep: &mut Report) {
-	rep.rule = "case = tacd (release build, as shipped) started with a random domain (ASCII / IDN / mixed case / reverse-DNS name), a random 32-byte digest rendered as the daemon's acmeIdentifier text (upper or lower hex), key type (7 or default) x digest (3 or default), TCP or unix-socket listener, domain and extension each passed by flag, file or standard input; 2..4 client ALPN lists tried in turn (only acme-tls/1; acme-tls/1 among others at any position; only foreign protocols incl. near-misses). Oracle (OpenSSL client of the harness + own DER walker): offering acme-tls/1 => handshake succeeds, acme-tls/1 negotiated, peer certificate has exactly one SAN = A-label dNSName (own punycode), critical acmeIdentifier = OCTET STRING of the digest, self-signed and verifying under its own key, currently valid, requested key type and digest; offering only other protocols => handshake fails. Non-trivial = one server answered at least one acme-tls/1 offer correctly AND refused at least one foreign offer.".into();
+	rep.rule = "case = tacd (release build, as shipped) started with a random domain (ASCII / IDN / mixed case / reverse-DNS name / names of 65..200 octets with labels up to 63), a random 32-byte digest rendered as the daemon's acmeIdentifier text (upper or lower hex), key type (7 or default) x digest (3 or default), TCP listener given as 127.0.0.1:port, [::1]:port or localhost:port, or unix-socket listener; client offering every TLS version or TLS 1.2 at most, sending its flights at once or 50 / 250 / 1100 ms late; domain and extension each passed by flag, file or standard input; 2..4 client ALPN lists tried in turn (only acme-tls/1; acme-tls/1 among others at any position; only foreign protocols incl. near-misses). Oracle (OpenSSL client of the harness + own DER walker): offering acme-tls/1 => handshake succeeds, acme-tls/1 negotiated, peer certificate has exactly one SAN = A-label dNSName (own punycode), critical acmeIdentifier = OCTET STRING of the digest, self-signed and verifying under its own key, currently valid, requested key type and digest; offering only other protocols => handshake fails. Non-trivial = one server answered at least one acme-tls/1 offer correctly AND refused at least one foreign offer.".into();
 	run_replays::<Case>(ctx, rep, "bb", &exec);
 	if ctx.replay.is_some() {
 		return;
